@@ -1,125 +1,91 @@
 (* C12 - AUTO_INCREMENT values are unique and increasing.
    Property theorems only.  Model/AutoInc.v is the hand-written model of the counter handling in
-   src/database/dml/insert.rs; [trace h] lists every (id, generated?) a history h of INSERT
-   statements (any mix of NULL / explicit ids, any statement failing at any row), insert_cached /
-   insert_batch calls (Bulk), DELETEs, BEGIN / COMMIT / ROLLBACK and reopen cycles writes into the
-   column, [counter h] is the header counter afterwards, [known_class h] names the recorded defect
-   regime h enters first (0 = none). *)
+   src/database/dml/insert.rs (after the repairs a94d684, 66de927, 6d846b9, 94b952d); w is the
+   width of the id column's integer type (16 SMALLINT / 32 INTEGER / otherwise 64 bits);
+   [trace w h] lists every (id, generated?) a history h of INSERT statements (any mix of NULL /
+   explicit ids, any statement failing at any row), insert_batch calls (Bulk), DELETEs,
+   BEGIN / COMMIT / ROLLBACK and reopen cycles writes into the column, [trace_w w h] the values
+   the column stores for them, [counter w h] the header counter afterwards. *)
 From Coq Require Import ZArith List Bool.
 From TV Require Import Lib.MachInt Model.AutoInc Proof.AutoInc.
 Import ListNotations.
 Open Scope Z_scope.
 
-(* every history outside the recorded defect classes: each generated id differs from every value
-   the column held before (explicit or generated, deleted / rolled back or not) and exceeds every
-   earlier generated id *)
+(* EVERY history: each generated id differs from every value the column held before (explicit or
+   generated, deleted / rolled back or not) and exceeds every earlier generated id *)
 Theorem autoinc_fresh_increasing :
-  forall h, known_class h = 0 -> fresh_increasing (trace h).
+  forall w h, fresh_increasing (trace w h).
 Proof. exact autoinc_fresh_increasing_l. Qed.
 
 (* ... because the header counter stays an upper bound of everything the column ever held *)
 Theorem autoinc_counter_dominates :
-  forall h, known_class h = 0 -> forall v b, In (v, b) (trace h) -> v <= counter h.
+  forall w h v b, In (v, b) (trace w h) -> v <= counter w h.
 Proof. exact autoinc_counter_dominates_l. Qed.
 
-(* ... and generated ids are positive i64 values (no wrap-around of `cur as i64`) *)
+(* ... generated ids are positive and within the id column's type (nothing wraps) ... *)
 Theorem autoinc_no_wrap :
-  forall h, known_class h = 0 -> forall g, In (g, true) (trace h) -> 1 <= g < 2 ^ 63.
+  forall w h g, In (g, true) (trace w h) -> 1 <= g <= limit w.
 Proof. exact autoinc_no_wrap_l. Qed.
+
+(* ... and generating beyond the type's maximum is an Error outcome, not an id: the statement
+   writes nothing and leaves the counter alone *)
+Theorem autoinc_overflow_is_error :
+  forall w ai rows, limit w <= ai -> insert_stmt w ai (RNull :: rows) None = (ai, [], false).
+Proof. exact autoinc_overflow_is_error_l. Qed.
 
 (* deletes, transaction control and reopen cycles change neither the generated ids nor the counter *)
 Theorem autoinc_other_ops_irrelevant :
-  forall h, trace h = trace (filter is_insert h) /\ counter h = counter (filter is_insert h).
+  forall w h, trace w h = trace w (filter is_insert h) /\ counter w h = counter w (filter is_insert h).
 Proof. exact autoinc_other_ops_irrelevant_l. Qed.
 
-(* one row per INSERT statement (with or without explicit id, failing or not): the property holds
-   unless the counter runs past i64::MAX or a bulk path brings in an id above the counter *)
-Theorem autoinc_single_row_statements :
-  forall h, single_row h -> known_class h <> 3 -> known_class h <> 4 -> fresh_increasing (trace h).
-Proof. exact autoinc_single_row_statements_l. Qed.
+(* what the column stores: nothing an INSERT writes is truncated, so (as long as ids loaded through
+   insert_batch, which does not check, fit the column's type) the stored values are the ids and
+   are fresh and increasing as well *)
+Theorem autoinc_fresh_increasing_stored :
+  forall w h, forallb (bulk_fits w) h = true -> trace_w w h = trace w h /\ fresh_increasing (trace_w w h).
+Proof. exact autoinc_fresh_increasing_stored_l. Qed.
 
 (* the checker run on the implementation's observed ids decides exactly the property *)
 Theorem fresh_increasing_chk_correct :
   forall tr, fresh_increasing_chk tr = true <-> fresh_increasing tr.
 Proof. exact fresh_increasing_chk_correct_l. Qed.
 
-(* the recorded classes do break the property on the model (witnesses re-run on the real code):
-   1  INSERT (id) VALUES (NULL),(2),(NULL)            -> ids 1, 2, 2
-   2  INSERT of two rows failing at the second, then INSERT -> id 1 generated twice
-   3  after an explicit i64::MAX the next generated id is i64::MIN
-   4  id 3 written by insert_cached / insert_batch, then generated again *)
-Theorem autoinc_refuted_explicit_ahead :
-  exists h, known_class h = 1 /\ trace h = [(1, true); (2, false); (2, true)] /\ ~ fresh_increasing (trace h).
-Proof. exact autoinc_refuted_explicit_ahead_l. Qed.
-
-Theorem autoinc_refuted_failed_statement :
-  exists h, known_class h = 2 /\ trace h = [(1, true); (1, true)] /\ ~ fresh_increasing (trace h).
-Proof. exact autoinc_refuted_failed_statement_l. Qed.
-
-Theorem autoinc_refuted_i64_wrap :
-  exists h, known_class h = 3 /\
-    trace h = [(1, true); (9223372036854775807, false); (-9223372036854775808, true)] /\
-    ~ fresh_increasing (trace h).
-Proof. exact autoinc_refuted_i64_wrap_l. Qed.
-
-Theorem autoinc_refuted_bulk_explicit :
-  exists h, known_class h = 4 /\ trace h = [(1, true); (3, false); (2, true); (3, true)] /\ ~ fresh_increasing (trace h).
-Proof. exact autoinc_refuted_bulk_explicit_l. Qed.
-
-(* the same for what a narrower id column (SMALLINT 16 / INTEGER 32 / BIGINT 64 bits) actually
-   stores: outside class 5 (an id outside the column's range is written) nothing is wrapped and
-   the stored values are fresh and increasing *)
-Theorem autoinc_fresh_increasing_stored :
-  forall w h, 0 < w -> known_class_w w h = 0 -> trace_w w h = trace h /\ fresh_increasing (trace_w w h).
-Proof. exact autoinc_fresh_increasing_stored_l. Qed.
-
-(*  5  INTEGER column: after 2147483647 the generated id 2147483648 is stored as -2147483648 *)
-Theorem autoinc_refuted_narrow_column :
-  exists h, known_class_w 32 h = 5 /\
-    trace h = [(2147483646, false); (2147483647, true); (2147483648, true)] /\
-    trace_w 32 h = [(2147483646, false); (2147483647, true); (-2147483648, true)] /\
-    ~ fresh_increasing (trace_w 32 h).
-Proof. exact autoinc_refuted_narrow_column_l. Qed.
-
-(* non-vacuity: a history with explicit ids, a mixed statement, a failing statement, a delete, a
-   rolled-back transaction, a reopen and a bulk insert of ids the counter already passed lies
-   outside every class and generates 1,2,3,11,12,13,14 *)
+(* non-vacuity / the five former defect regimes (findings F-C12-1..5, fixed) on the repaired model:
+   1 explicit id inside a statement is skipped over; 2 ids of a failing statement are burnt;
+   3 i64::MAX is the last id, then Err; 4 ids loaded by insert_batch raise the counter;
+   5 an INTEGER column ends at 2147483647, then Err - and a mixed history with a delete, a rolled
+   back transaction and a reopen *)
 Example c12_witness :
-  let h := [Insert [RNull; RNull] None; Insert [RNull; RInt 10; RInt 4] None; Delete;
-            Insert [RNull; RInt 7] (Some 0%nat); TxBegin; Insert [RNull; RNull] None; TxRollback;
-            Reopen; Insert [RInt 12; RNull] (Some 1%nat); Insert [RNull] None;
-            Bulk [RNull; RInt 5; RInt (-2)] None; Insert [RNull] None] in
-  known_class h = 0 /\ known_class_w 16 h = 0 /\ counter h = 14 /\
-  trace h = [(1, true); (2, true); (3, true); (10, false); (4, false); (11, true); (12, true);
-             (12, false); (13, true); (5, false); (-2, false); (14, true)] /\
-  fresh_increasing_chk (trace h) = true /\ single_row [Insert [RNull] None; Delete; Insert [RInt 5] None].
-Proof.
-  vm_compute. repeat split.
-  intros rows ext [H|[H|[H|[]]]]; inversion H; subst; cbn; auto.
-Qed.
+  trace 64 [Insert [RNull; RInt 2; RNull] None] = [(1, true); (2, false); (3, true)] /\
+  trace 64 [Insert [RNull; RNull] (Some 1%nat); Insert [RNull] None] = [(1, true); (3, true)] /\
+  trace 64 [Insert [RNull] None; Insert [RInt 9223372036854775807] None; Insert [RNull] None]
+    = [(1, true); (9223372036854775807, false)] /\
+  trace 64 [Insert [RNull] None; Bulk [RInt 3] ; Insert [RNull; RNull] None]
+    = [(1, true); (3, false); (4, true); (5, true)] /\
+  trace 32 [Insert [RInt 2147483646] None; Insert [RNull] None; Insert [RNull] None]
+    = [(2147483646, false); (2147483647, true)] /\
+  (let h := [Insert [RNull; RNull] None; Insert [RNull; RInt 10; RInt 4] None; Delete;
+             Insert [RNull; RInt 7] (Some 0%nat); TxBegin; Insert [RNull; RNull] None; TxRollback;
+             Reopen; Insert [RInt 12; RNull] (Some 1%nat); Insert [RNull] None;
+             Bulk [RNull; RInt 5; RInt (-2)]; Insert [RNull] None] in
+   counter 16 h = 16 /\
+   trace 16 h = [(1, true); (2, true); (3, true); (10, false); (4, false); (12, true); (13, true);
+                 (12, false); (15, true); (5, false); (-2, false); (16, true)] /\
+   forallb (bulk_fits 16) h = true).
+Proof. vm_compute. repeat split. Qed.
 
-Check autoinc_fresh_increasing : forall h, known_class h = 0 -> fresh_increasing (trace h).
-Check autoinc_counter_dominates : forall h, known_class h = 0 -> forall v b, In (v, b) (trace h) -> v <= counter h.
-Check autoinc_no_wrap : forall h, known_class h = 0 -> forall g, In (g, true) (trace h) -> 1 <= g < 2 ^ 63.
-Check autoinc_other_ops_irrelevant : forall h, trace h = trace (filter is_insert h) /\ counter h = counter (filter is_insert h).
-Check autoinc_single_row_statements : forall h, single_row h -> known_class h <> 3 -> known_class h <> 4 -> fresh_increasing (trace h).
+Check autoinc_fresh_increasing : forall w h, fresh_increasing (trace w h).
+Check autoinc_counter_dominates : forall w h v b, In (v, b) (trace w h) -> v <= counter w h.
+Check autoinc_no_wrap : forall w h g, In (g, true) (trace w h) -> 1 <= g <= limit w.
+Check autoinc_overflow_is_error : forall w ai rows, limit w <= ai -> insert_stmt w ai (RNull :: rows) None = (ai, [], false).
+Check autoinc_other_ops_irrelevant : forall w h, trace w h = trace w (filter is_insert h) /\ counter w h = counter w (filter is_insert h).
+Check autoinc_fresh_increasing_stored : forall w h, forallb (bulk_fits w) h = true -> trace_w w h = trace w h /\ fresh_increasing (trace_w w h).
 Check fresh_increasing_chk_correct : forall tr, fresh_increasing_chk tr = true <-> fresh_increasing tr.
-Check autoinc_refuted_explicit_ahead : exists h, known_class h = 1 /\ trace h = [(1, true); (2, false); (2, true)] /\ ~ fresh_increasing (trace h).
-Check autoinc_refuted_failed_statement : exists h, known_class h = 2 /\ trace h = [(1, true); (1, true)] /\ ~ fresh_increasing (trace h).
-Check autoinc_refuted_i64_wrap : exists h, known_class h = 3 /\ trace h = [(1, true); (9223372036854775807, false); (-9223372036854775808, true)] /\ ~ fresh_increasing (trace h).
-Check autoinc_refuted_bulk_explicit : exists h, known_class h = 4 /\ trace h = [(1, true); (3, false); (2, true); (3, true)] /\ ~ fresh_increasing (trace h).
-Check autoinc_fresh_increasing_stored : forall w h, 0 < w -> known_class_w w h = 0 -> trace_w w h = trace h /\ fresh_increasing (trace_w w h).
-Check autoinc_refuted_narrow_column : exists h, known_class_w 32 h = 5 /\ trace h = [(2147483646, false); (2147483647, true); (2147483648, true)] /\ trace_w 32 h = [(2147483646, false); (2147483647, true); (-2147483648, true)] /\ ~ fresh_increasing (trace_w 32 h).
 
 Print Assumptions autoinc_fresh_increasing.
 Print Assumptions autoinc_counter_dominates.
 Print Assumptions autoinc_no_wrap.
+Print Assumptions autoinc_overflow_is_error.
 Print Assumptions autoinc_other_ops_irrelevant.
-Print Assumptions autoinc_single_row_statements.
-Print Assumptions fresh_increasing_chk_correct.
-Print Assumptions autoinc_refuted_explicit_ahead.
-Print Assumptions autoinc_refuted_failed_statement.
-Print Assumptions autoinc_refuted_i64_wrap.
-Print Assumptions autoinc_refuted_bulk_explicit.
 Print Assumptions autoinc_fresh_increasing_stored.
-Print Assumptions autoinc_refuted_narrow_column.
+Print Assumptions fresh_increasing_chk_correct.
